@@ -216,16 +216,37 @@ Definition blob_views (nk : nat) (h : list blob_event) : list (list (sid * sobs)
 From HV Require Import C18.ModelK8s.
 
 (** a RuleSet object of the provider's auth class shows its rules; an object of
-    another class, or a deleted one, is not (any more) a source of this instance *)
-Definition k8s_view (e : k8s_event) : list (sid * sobs) :=
-  let o := snd e in
-  [(Sid (k_uid o),
-    match fst e with
-    | WAdded | WModified => if k_cls o then SNew (k_cid o) else SGone
-    | WDeleted => SGone
-    end)].
+    another class, or a deleted one, is not (any more) a source of this instance.
+    [s] is what the API server last told about each name: when the object now
+    delivered under a name has another UID than the one last seen there, the
+    previous object is gone. *)
+Definition kobj_obs (o : kobj) : sobs := if k_cls o then SNew (k_cid o) else SGone.
 
-Definition k8s_views (h : list k8s_event) : list (list (sid * sobs)) := map k8s_view h.
+Definition k8s_atom_view (s : kstore) (a : katom) : list (sid * sobs) :=
+  match a with
+  | AUpsert o =>
+    match s (k_name o) with
+    | Some old => if Nat.eqb (k_uid old) (k_uid o) then [(Sid (k_uid o), kobj_obs o)]
+                  else [(Sid (k_uid old), SGone); (Sid (k_uid o), kobj_obs o)]
+    | None => [(Sid (k_uid o), kobj_obs o)]
+    end
+  | ADelete o => [(Sid (k_uid o), SGone)]
+  | ATomb n => match s n with Some old => [(Sid (k_uid old), SGone)] | None => [] end
+  end.
+
+(** what was last told about each name *)
+Definition ks_atom (s : kstore) (a : katom) : kstore :=
+  match a with
+  | AUpsert o => ks_set s (k_name o) (Some o)
+  | ADelete o => match s (k_name o) with Some _ => ks_set s (k_name o) None | None => s end
+  | ATomb n => match s n with Some _ => ks_set s n None | None => s end
+  end.
+
+Fixpoint k8s_atom_views (s : kstore) (atoms : list katom) : list (list (sid * sobs)) :=
+  match atoms with
+  | [] => []
+  | a :: r => k8s_atom_view s a :: k8s_atom_views (ks_atom s a) r
+  end.
 
 (** The Kubernetes provider keeps no record of what it applied; it hands every
     change to the processor, whose operations are idempotent (updating a rule set
